@@ -10,6 +10,13 @@ Correspondence streams (model = lean/Drv/C18.lean over Model.Addr):
   pairs     : every ordered pair inside pools of equivalent spellings and across pools (==, _tuple)
   malformed : near-miss mutations of valid texts, random strings, exhaustive short strings
   pack      : pack_ip_addr / unpack_ip_addr
+  reuse     : ONE long-lived Address object, hashed / stored in a dict and a set, then re-initialised with the
+              next spelling (decode_address, __init__ again, the typed subclasses' __init__ on the same
+              object, refused spellings in between); per step the model's reply for a FRESH address
+  stack     : hand-encoded NPDU octets (local, SNET/SADR via several routers, DNET global / remote
+              broadcast / remote station) through a real NetworkServiceAccessPoint (application rig and
+              two-port router rig) and BVLL octets through AnnexJCodec+BIPSimple; the model's reply for the
+              typed address each pduSource / pduDestination denotes
 For each constructed address both sides report type, net, octets, length, the
 IP helper fields, the printed text and the (type, net, octets) of the re-parsed
 printed text.
@@ -21,6 +28,13 @@ Implementation-side oracle (independent of the model):
   * for every accepted address: 0 <= net <= 65534 and an int, octets/length
     coherent, IP tuple port == addrPort == port in the octets,
     Address(str(a)) == a both ways with equal hash and dict membership;
+  * object reuse: after every re-initialisation the object equals a fresh address of the new value both
+    ways, hashes equally, finds and is found in dict/set, prints alike; after ANY history (every stream)
+    hash(x) == hash(shadow(x)), shadow = blank Address given x's current five fields;
+  * stack (default settings): every address handed up carries no route, has the fields the frame denotes
+    (independent delivery/mapping reference), equals the typed address and its printed text both ways with
+    equal hash and dict membership, passes the generic checks; all sightings of one station are equal, hash
+    alike, print alike and find the same DeviceInfoCache record (also under the typed address);
   * pools: all members pairwise ==, equal hash, found in a dict keyed by any
     other member; members of different pools are !=; == is reflexive,
     symmetric and transitive over sampled triples.
@@ -37,6 +51,9 @@ RULE = ("all station numbers 0..255 (+256..300 and far values, refused) in 10 sp
         "expected values from the standard ipaddress module; octet strings of length 0..8 x 9 forms; tuples; "
         "every ordered pair inside pools of equivalent spellings + cross-pool pairs; near-miss mutations, random "
         "strings and all strings up to length 5 (quick 4) over the 16-letter notation alphabet 0129*:./x'Xaf\\nA and blank, and all strings of length 6..7 (thorough ..8) over 01.:/*x. "
+        "object reuse: all ordered pairs of 14 canonical values + seeded random 2..6-step histories over the pools' "
+        "spellings (12% refused ones); stack: (rig A/B) x 15 source stations x 7 destinations x 4 link sources x arrival "
+        "port + seeded random scenarios, B/IP: hosts x 6 ports x {unicast, broadcast, forwarded}. "
         "distinct = distinct (stream, model branch label of constructor/recogniser/printer or error kind)")
 TRUSTED = ["lean/BacVerif/Model/Addr.lean is a hand transcription of Address.decode_address/__str__/__eq__/_tuple and "
            "the typed constructors; tied by the correspondence streams",
@@ -45,7 +62,8 @@ TRUSTED = ["lean/BacVerif/Model/Addr.lean is a hand transcription of Address.dec
 ASSUMPTIONS = ["route suffixes '@...' are outside the claim and never generated",
                "ASCII strings only (Python's \\d also accepts other Unicode decimal digits)",
                "netifaces is not installed (interface-name notation unreachable); the harness pins pdu.netifaces = None",
-               "settings.route_aware is False (default)",
+               "settings.route_aware is False (default); the only exception is the 3-case route_aware_reuse probe "
+               "(hash self-consistency after a route is replaced / the setting is switched), which restores it",
                "tuple host strings are drawn from digits and dots (inet_aton's hex parts / trailing blanks not modelled)"]
 
 PORTS = [None, 0, 1, 47807, 47808, 47809, 47823, 47824, 65535, 65536, 70000]
@@ -116,10 +134,10 @@ def key(a):
     return [a.addrType, a.addrNet, None if a.addrAddr is None else bytes(a.addrAddr).hex()]
 
 
-def jaddr(a):
+def jaddr(a, with_ip=True):
     from bacpypes import pdu
     ip = None
-    if hasattr(a, "addrIP"):
+    if with_ip and hasattr(a, "addrIP"):
         bt = a.addrBroadcastTuple
         ip = {"ip": a.addrIP, "mask": a.addrMask, "host": a.addrHost, "subnet": a.addrSubnet,
               "port": a.addrPort, "th": a.addrTuple[0], "bh": bt[0]}
@@ -298,6 +316,27 @@ def generic_checks(ctx, case, a):
     ok = (b == a) and (a == b) and not (a != b) and hash(a) == hash(b) and (b in {a: 1}) and (a in {b: 1})
     if not ok or key(a) != key(b):
         ctx.fail("print-parse", case, "Address(%r) is %r, not equal to the printed address %r" % (s, key(b), key(a)))
+    shadow_check(ctx, case, a, "after str()/==/hash")
+
+
+def shadow(a):
+    """a blank Address given the five fields an address consists of: what `a` is worth NOW"""
+    from bacpypes import pdu
+    b = pdu.Address()
+    b.addrType, b.addrNet, b.addrAddr, b.addrLen = a.addrType, a.addrNet, a.addrAddr, a.addrLen
+    r = a.addrRoute
+    b.addrRoute = None if r is None else shadow(r)
+    return b
+
+
+def shadow_check(ctx, case, a, when):
+    """whatever happened to the object before: its hash is the hash of its current value"""
+    b = shadow(a)
+    if hash(a) != hash(b) or not (a == b and b == a) or ({b: 1}.get(a) != 1):
+        ctx.fail("stale-hash", case, "%s: the object is worth %r but hashes/looks up differently from a fresh "
+                 "address of that value (hash %d vs %d)" % (when, key(a), hash(a), hash(b)))
+        return False
+    return True
 
 
 def mutable_octets_check(ctx, case, a):
@@ -760,6 +799,456 @@ def gen_short(length, lo, hi, alphabet=SHORT):
     return out
 
 
+# ---------------------------------------------------------------- object reuse (wave 4)
+
+def reinit(a, spec, via):
+    """re-initialise the SAME object every way the library offers: decode_address() (what
+    Address.__init__ itself calls), __init__ called again, the typed subclasses' __init__"""
+    from bacpypes import pdu
+    k = spec["k"]
+    if k in ("str", "int", "bytes", "tups", "tupi"):
+        if via == "decode":
+            a.decode_address(raw_arg(spec))
+        else:
+            pdu.Address.__init__(a, raw_arg(spec))
+    elif k == "net2":
+        pdu.Address.__init__(a, spec["net"], raw_arg(spec["a"]))
+    elif k == "LS":
+        pdu.LocalStation.__init__(a, spec["n"])
+    elif k == "LSb":
+        pdu.LocalStation.__init__(a, bytes.fromhex(spec["x"]))
+    elif k == "RS":
+        pdu.RemoteStation.__init__(a, spec["net"], spec["n"])
+    elif k == "RSb":
+        pdu.RemoteStation.__init__(a, spec["net"], bytes.fromhex(spec["x"]))
+    elif k == "LB":
+        pdu.LocalBroadcast.__init__(a)
+    elif k == "RB":
+        pdu.RemoteBroadcast.__init__(a, spec["net"])
+    elif k == "GB":
+        pdu.GlobalBroadcast.__init__(a)
+    elif k == "null":
+        pdu.Address.__init__(a)
+    else:
+        raise core.Infra("bad ctor " + k)
+
+
+def jlite(a):
+    d = jaddr(a, with_ip=False)
+    d.pop("ip", None)       # helper fields of an earlier IP notation are left behind by decode_address: not compared
+    return d
+
+
+def run_reuse_case(ctx, case):
+    """one long-lived object, hashed / stored, then re-initialised with the next spelling.
+    Returns the per-step replies (compared with the model's reply for a FRESH address)."""
+    from bacpypes import pdu
+    a = pdu.Address()
+    hash(a)
+    seen, aset, out = {}, set(), []
+    for i, st in enumerate(case["steps"]):
+        spec, via = st["c"], st.get("via", "decode")
+        try:
+            fresh = build(spec)
+            fk = None
+        except Exception as e:
+            fresh, fk = None, ek(e)
+        try:
+            reinit(a, spec, via)
+            rk = None
+        except Exception as e:
+            rk = ek(e)
+        if (fk is None) != (rk is None) or fk != rk:
+            ctx.fail("object-reuse", case, "step %d %r: a fresh address gives %s, the re-used object %s" % (
+                i, spec, fk or "ok", rk or "ok"), step=i)
+        if rk is not None:
+            out.append({"r": "err", "k": rk})
+            shadow_check(ctx, case, a, "step %d (refused %r)" % (i, spec))
+        else:
+            out.append(jlite(a))
+            if fresh is not None:
+                try:
+                    sa, sf = str(a), str(fresh)
+                except Exception:
+                    sa = sf = None
+                bad = []
+                if key(a) != key(fresh):
+                    bad.append("fields %r != %r" % (key(a), key(fresh)))
+                if not (a == fresh and fresh == a) or (a != fresh):
+                    bad.append("== is false")
+                if hash(a) != hash(fresh):
+                    bad.append("hash differs")
+                if {fresh: i}.get(a) != i or {a: i}.get(fresh) != i or a not in {fresh} or fresh not in {a}:
+                    bad.append("dict/set lookup misses")
+                if sa != sf:
+                    bad.append("prints %r, fresh prints %r" % (sa, sf))
+                if bad:
+                    ctx.fail("object-reuse", case, "step %d: object re-initialised (%s) with %r vs a fresh address: %s" % (
+                        i, via, spec, "; ".join(bad)), step=i)
+                else:
+                    shadow_check(ctx, case, a, "step %d" % i)
+        # use it the way tables do (this hashes the object)
+        try:
+            seen[a] = i
+            aset.add(a)
+            hash(a)
+        except Exception as e:
+            ctx.fail("object-reuse", case, "step %d: hashing raised %s" % (i, type(e).__name__), step=i)
+    return out
+
+
+def gen_reuse(ctx, rng, pools):
+    flat = [(c, sp) for c, sps in pools for sp in sps]
+    bad = [S("256"), S("70000:5"), S("junk"), {"k": "int", "n": -1}, {"k": "RB", "net": 65535},
+           {"k": "net2", "net": 9, "a": S("*:*")}, S("1.2.3.4/33"), {"k": "tups", "h": "1.2.3.4", "p": 70000}]
+    cases = []
+    # the witness shape first: every ordered pair of distinct canonical values, both ways of re-decoding
+    reps = [(c, sps[0]) for c, sps in pools]
+    for (c1, s1), (c2, s2) in itertools.permutations(reps[:14], 2):
+        cases.append({"op": "reuse", "steps": [{"c": s1, "via": "decode"}, {"c": s2, "via": "decode"}]})
+    n = 700 if ctx.quick else 12000
+    for _ in range(n):
+        steps = []
+        for _k in range(rng.choice([2, 2, 3, 4, 6])):
+            spec = rng.choice(bad) if rng.random() < 0.12 else rng.choice(flat)[1]
+            steps.append({"c": spec, "via": rng.choice(["decode", "init"])})
+        cases.append({"op": "reuse", "steps": steps})
+    return cases
+
+
+def run_reuse(ctx, cases):
+    setup()
+    flat, impl_r = [], []
+    for case in cases:
+        rs = run_reuse_case(ctx, case)
+        for st, r in zip(case["steps"], rs):
+            flat.append({"op": "mk", "c": st["c"], "reuse": True})
+            impl_r.append(r)
+    if ctx.model_ok:
+        b = core.Driver("drv_c18").ask([{"op": "mk", "c": c["c"]} for c in flat])
+        for m in b:
+            if isinstance(m, dict):
+                m.pop("ip", None)
+        ctx.compare_stream("reuse", flat, impl_r, b, sig=lambda c, m: ("reuse", c["c"]["k"], m.get("r"), m.get("ty")))
+    else:
+        ctx.count("reuse", n=len(flat))
+    for c in cases[:2]:
+        ctx.sample({"stream": "reuse", "case": c})
+
+
+def route_aware_reuse(ctx):
+    """outside the default settings, kept small: an address whose route is replaced, or whose
+    process switches settings.route_aware, must hash as what it is worth now"""
+    from bacpypes import pdu
+    from bacpypes.settings import settings
+    try:
+        for text, r1, r2 in (("5:12", 1, 3), ("7:0x0102", 9, None), ("2:1.2.3.4", 4, 5)):
+            case = {"op": "route-reuse", "text": text, "routes": [r1, r2]}
+            settings.route_aware = True
+            a = pdu.Address(text)
+            a.addrRoute = pdu.Address(r1)
+            hash(a); {a: 1}
+            a.addrRoute = None if r2 is None else pdu.Address(r2)
+            ctx.count("reuse-route", ("route", r2 is None))
+            if not shadow_check(ctx, case, a, "route replaced under route_aware"):
+                continue
+            hash(a)
+            settings.route_aware = False
+            shadow_check(ctx, case, a, "settings.route_aware switched off after hashing")
+    finally:
+        settings.route_aware = False
+
+
+# ---------------------------------------------------------------- addresses the stack produces (wave 4)
+
+def enc_npdu(dnet=None, dadr=b"", snet=None, sadr=b"", apdu=b"\x10\x08", hop=255):
+    """NPDU octets written by hand (clause 6.2): version, control, DNET/DLEN/DADR, SNET/SLEN/SADR, hop count"""
+    ctrl = (0x20 if dnet is not None else 0) | (0x08 if snet is not None else 0)
+    o = bytes([1, ctrl])
+    if dnet is not None:
+        o += dnet.to_bytes(2, "big") + bytes([len(dadr)]) + dadr
+    if snet is not None:
+        o += snet.to_bytes(2, "big") + bytes([len(sadr)]) + sadr
+    if dnet is not None:
+        o += bytes([hop])
+    return o + apdu
+
+
+def stack_expect(rig, f):
+    """independent reference: is the APDU handed up, and with which (source, destination) keys.
+    rig A: one adapter, station 2, network unknown.  rig B: router, local adapter net 1 station 2,
+    second adapter net 2.  f: arrival net `on`, link source `via`, link destination 'u'/'b', dnet/dadr/snet/sadr."""
+    my = 2
+    via_key = [2, None, "%02x" % f["via"]]
+    src = via_key if f["snet"] is None else [4, f["snet"], f["sadr"]]
+    link_dst = [2, None, "%02x" % (my if rig == "A" or f["on"] == 1 else 3)] if f["dst"] == "u" else [1, None, None]
+    if rig == "A":
+        if f["dnet"] is None:
+            return src, link_dst
+        if f["dnet"] == 0xFFFF:
+            return src, [5, None, None]
+        return None
+    nets = (1, 2)
+    if f["snet"] in nets or f["dnet"] == f["on"]:
+        return None                                     # path errors
+    routed_look = f["on"] != 1
+    if routed_look and f["snet"] is None:
+        src = [4, f["on"], "%02x" % f["via"]]
+    if f["dnet"] is None:
+        return None if routed_look else (src, link_dst)
+    if f["dnet"] == 0xFFFF:
+        return src, [5, None, None]
+    if f["dnet"] != 1:
+        return None
+    if f["dadr"] == "":
+        return src, [1, None, None]
+    if f["dadr"] == "%02x" % my:
+        return src, [2, None, "%02x" % my]
+    return None
+
+
+def typed_spec(k):
+    ty, net, h = k
+    if ty == 1:
+        return {"k": "LB"}
+    if ty == 5:
+        return {"k": "GB"}
+    if ty == 3:
+        return {"k": "RB", "net": net}
+    if ty == 2:
+        return {"k": "LSb", "x": h}
+    return {"k": "RSb", "net": net, "x": h}
+
+
+class _Rig:
+    def __init__(self, rig):
+        from bacpypes.comm import Client, Server, bind
+        from bacpypes.pdu import Address
+        from bacpypes.netservice import NetworkServiceAccessPoint
+
+        class Wire(Server):
+            def indication(self, pdu):
+                pass
+
+        class Catcher(Client):
+            def __init__(self):
+                Client.__init__(self)
+                self.got = []
+
+            def confirmation(self, apdu):
+                self.got.append(apdu)
+        self.nsap = NetworkServiceAccessPoint()
+        self.wires = {}
+        if rig == "A":
+            self.wires[None] = Wire()
+            self.nsap.bind(self.wires[None], address=Address(2))
+        else:
+            self.wires[1], self.wires[2] = Wire(), Wire()
+            self.nsap.bind(self.wires[1], 1, Address(2))
+            self.nsap.bind(self.wires[2], 2)
+        self.top = Catcher()
+        bind(self.top, self.nsap)
+
+    def feed(self, rig, f):
+        from bacpypes.pdu import Address, PDU, LocalBroadcast
+        octets = enc_npdu(f["dnet"], bytes.fromhex(f["dadr"]), f["snet"], bytes.fromhex(f["sadr"]))
+        me = 2 if (rig == "A" or f["on"] == 1) else 3
+        dst = Address(me) if f["dst"] == "u" else LocalBroadcast()
+        n = len(self.top.got)
+        self.wires[None if rig == "A" else f["on"]].response(PDU(octets, source=Address(f["via"]), destination=dst))
+        return self.top.got[n:]
+
+
+def gen_stack(ctx, rng):
+    """scenarios = list of frames through one rig; the same station is sighted through several routers"""
+    sadrs = ["0c", "0c0d", "010203040506", "c0a80007bac0", "ff", "00"]
+    cases = []
+    for rig in ("A", "B"):
+        for snet, sadr in [(None, "")] + [(n, x) for n in (5, 6, 65534) for x in sadrs[:4]] + [(1, "0c"), (2, "0c")]:
+            for dnet, dadr in ((None, ""), (0xFFFF, ""), (1, ""), (1, "02"), (1, "07"), (2, ""), (9, "01")):
+                frames = []
+                for via in (1, 3, 1, 200):
+                    for on in ((None,) if rig == "A" else (1, 2)):
+                        frames.append({"on": on, "via": via, "dst": rng.choice("ub"), "dnet": dnet, "dadr": dadr,
+                                       "snet": snet, "sadr": sadr})
+                cases.append({"op": "stack", "rig": rig, "frames": frames})
+    n = 40 if ctx.quick else 600
+    for _ in range(n):
+        rig = rng.choice("AB")
+        frames = []
+        stations = [(rng.choice([5, 6, 77, 65534]), rng.choice(sadrs)) for _i in range(2)] + [(None, "")]
+        for _k in range(rng.randrange(4, 12)):
+            snet, sadr = rng.choice(stations)
+            dnet, dadr = rng.choice([(None, ""), (None, ""), (0xFFFF, ""), (1, ""), (1, "02"), (9, "01")])
+            frames.append({"on": None if rig == "A" else rng.choice([1, 2]), "via": rng.choice([1, 3, 9, 254]),
+                           "dst": rng.choice("ub"), "dnet": dnet, "dadr": dadr, "snet": snet, "sadr": sadr})
+        cases.append({"op": "stack", "rig": rig, "frames": frames})
+    return cases
+
+
+def delivered_checks(ctx, case, i, role, a, want):
+    """one address handed up by the stack (default settings) against the typed address it denotes"""
+    from bacpypes import pdu
+    one = {"op": "stack", "rig": case.get("rig"), "frames": case["frames"][:i + 1]} if "frames" in case else case
+    if a.addrRoute is not None:
+        ctx.fail("stack-route", one, "frame %d: %s handed up as %s carries a route (%s) although settings.route_aware "
+                 "is off" % (i, role, a, a.addrRoute), frame=i)
+        return False
+    if key(a) != want:
+        ctx.fail("stack-fields", one, "frame %d: %s is %r, the frame denotes %r" % (i, role, key(a), want), frame=i)
+        return False
+    typed = build(typed_spec(want))
+    texts = [typed]
+    try:
+        texts.append(pdu.Address(str(typed)))
+    except Exception:
+        pass
+    for t in texts:
+        if not (a == t and t == a) or (a != t) or hash(a) != hash(t) or {t: 1}.get(a) != 1 or {a: 1}.get(t) != 1:
+            ctx.fail("stack-eq", one, "frame %d: %s %s vs the typed address %s: ==/hash/dict disagree" % (i, role, a, t),
+                     frame=i)
+            return False
+    generic_checks(ctx, one, a)
+    return True
+
+
+def run_stack_case(ctx, case, flat, impl_r):
+    from bacpypes.app import DeviceInfoCache, DeviceInfo
+    rig = _Rig(case["rig"])
+    sightings = {}
+    for i, f in enumerate(case["frames"]):
+        try:
+            got = rig.feed(case["rig"], f)
+        except Exception as e:
+            ctx.fail("stack-exception", case, "frame %d raised %s: %s" % (i, type(e).__name__, e), frame=i)
+            continue
+        want = stack_expect(case["rig"], f)
+        ctx.count("stack", (case["rig"], f["snet"] is not None, f["dnet"], want is not None, f["on"]))
+        if (want is None) != (len(got) == 0) or len(got) > 1:
+            ctx.fail("stack-delivery", {"op": "stack", "rig": case["rig"], "frames": [f]},
+                     "frame %r: %d APDUs handed up, reference expects %s" % (f, len(got), "none" if want is None else "one"))
+            continue
+        if want is None:
+            continue
+        apdu = got[0]
+        for role, a, w in (("pduSource", apdu.pduSource, want[0]), ("pduDestination", apdu.pduDestination, want[1])):
+            ok = delivered_checks(ctx, case, i, role, a, w)
+            flat.append({"op": "mk", "c": typed_spec(w), "stack": role})
+            impl_r.append(jlite(a))
+            if role == "pduSource" and (ok or key(a) == w):
+                sightings.setdefault(tuple(w), []).append((i, a))
+    # two sightings of one station: equal, same hash, same table entry, same device-cache record
+    for w, lst in sightings.items():
+        (i0, a0) = lst[0]
+        cache = DeviceInfoCache()
+        info = DeviceInfo(1234, a0)
+        cache.update_device_info(info)
+        for (i1, a1) in lst[1:]:
+            bad = []
+            if not (a0 == a1 and a1 == a0):
+                bad.append("not ==")
+            if hash(a0) != hash(a1) or {a0: 1}.get(a1) != 1:
+                bad.append("hash/dict differ")
+            if cache.get_device_info(a1) is not info or not cache.has_device_info(a1):
+                bad.append("DeviceInfoCache record stored under the first is not found with the second")
+            if str(a0) != str(a1):
+                bad.append("print %r / %r" % (str(a0), str(a1)))
+            if bad:
+                ctx.fail("stack-sightings", {"op": "stack", "rig": case["rig"],
+                                             "frames": [case["frames"][i0], case["frames"][i1]]},
+                         "station %r sighted in frames %d and %d (%s, %s): %s" % (list(w), i0, i1, a0, a1, "; ".join(bad)))
+                break
+        typed = build(typed_spec(list(w)))
+        if cache.get_device_info(typed) is not info:
+            ctx.fail("stack-sightings", {"op": "stack", "rig": case["rig"], "frames": [case["frames"][i0]]},
+                     "DeviceInfoCache record stored under the sighted %s is not found under the typed %s" % (a0, typed))
+
+
+def gen_bip(ctx, rng):
+    hosts = [0x0A000009, 0xC0A80007, 0x01020304, 0xFFFFFFFE, 0x00000001] + [rng.getrandbits(32) for _ in range(4 if ctx.quick else 60)]
+    cases = []
+    for h in hosts:
+        for port in (47808, 47809, 47823, 47824, 1, 65535):
+            for fn in (0x0A, 0x0B, 0x04):
+                cases.append({"op": "bip", "fn": fn, "udp": [str(ipaddress.IPv4Address(h)), port],
+                              "orig": struct.pack("!LH", h ^ 0x0101, port).hex()})
+    return cases
+
+
+def run_bip_case(ctx, case, rig, flat, impl_r):
+    """what BIPSimple hands up from the (host, port) tuple of the UDP layer / the address inside Forwarded-NPDU"""
+    from bacpypes.pdu import Address, PDU
+    bot, top = rig
+    body = (bytes.fromhex(case["orig"]) if case["fn"] == 0x04 else b"") + enc_npdu()
+    octets = bytes([0x81, case["fn"]]) + (4 + len(body)).to_bytes(2, "big") + body
+    n = len(top.got)
+    udp = (case["udp"][0], case["udp"][1])
+    try:
+        bot.response(PDU(octets, source=Address(udp), destination=Address(("192.168.0.2", 47808))))
+    except Exception as e:
+        ctx.fail("stack-exception", case, "raised %s: %s" % (type(e).__name__, e))
+        return
+    got = top.got[n:]
+    ctx.count("stack-bip", (case["fn"], case["udp"][1]))
+    if len(got) != 1:
+        ctx.fail("stack-delivery", case, "%d PDUs handed up, expected one" % len(got))
+        return
+    if case["fn"] == 0x04:
+        want_src = [2, None, case["orig"]]
+        o = bytes.fromhex(case["orig"])
+        spec = {"k": "tups", "h": str(ipaddress.IPv4Address(o[:4])), "p": struct.unpack("!H", o[4:])[0]}
+    else:
+        want_src = [2, None, (ipaddress.IPv4Address(udp[0]).packed + struct.pack("!H", udp[1])).hex()]
+        spec = {"k": "tups", "h": udp[0], "p": udp[1]}
+    want_dst = [2, None, "c0a80002bac0"] if case["fn"] == 0x0A else [1, None, None]
+    a = got[0].pduSource
+    delivered_checks(ctx, case, 0, "pduSource", a, want_src)
+    delivered_checks(ctx, case, 0, "pduDestination", got[0].pduDestination, want_dst)
+    # every spelling of that B/IP address finds it
+    for other in (build(spec), build(S("%s:%d" % (spec["h"], spec["p"]))), build({"k": "bytes", "x": want_src[2]})):
+        if not (a == other and other == a) or hash(a) != hash(other) or {other: 1}.get(a) != 1:
+            ctx.fail("stack-eq", case, "B/IP source %s vs %s: ==/hash/dict disagree" % (a, other))
+            break
+    flat.append({"op": "mk", "c": spec, "stack": "bip"})
+    impl_r.append(jaddr(a))
+
+
+def run_stack(ctx, cases, bip_cases):
+    setup()
+    import logging
+    logging.getLogger("bacpypes").setLevel(logging.ERROR)      # the NSAP reports path errors as warnings
+    from bacpypes.comm import Client, Server, bind
+    from bacpypes.bvllservice import BIPSimple, AnnexJCodec
+    flat, impl_r = [], []
+    for case in cases:
+        run_stack_case(ctx, case, flat, impl_r)
+    nflat = len(flat)
+
+    class Wire(Server):
+        def indication(self, pdu):
+            pass
+
+    class Catcher(Client):
+        def __init__(self):
+            Client.__init__(self)
+            self.got = []
+
+        def confirmation(self, pdu):
+            self.got.append(pdu)
+    bot, top = Wire(), Catcher()
+    bind(top, BIPSimple(), AnnexJCodec(), bot)
+    for case in bip_cases:
+        run_bip_case(ctx, case, (bot, top), flat, impl_r)
+    if ctx.model_ok and flat:
+        b = core.Driver("drv_c18").ask([{"op": "mk", "c": c["c"]} for c in flat])
+        for m in b[:nflat]:
+            if isinstance(m, dict):
+                m.pop("ip", None)
+        ctx.compare_stream("stack", flat, impl_r, b, sig=lambda c, m: ("stack", c["stack"], c["c"]["k"], m.get("ty")))
+    for c in cases[:1] + bip_cases[:1]:
+        ctx.sample({"stream": "stack", "case": c})
+
+
 # ---------------------------------------------------------------- signatures
 
 def sig(case, m):
@@ -852,7 +1341,9 @@ def run(ctx):
     rng = ctx.sub_rng("c18")
     corpus = load_corpus()
     if corpus:
-        run_cases(ctx, "corpus", corpus)
+        run_cases(ctx, "corpus", [c for c in corpus if c["op"] not in ("reuse", "stack", "bip")])
+        run_reuse(ctx, [c for c in corpus if c["op"] == "reuse"])
+        run_stack(ctx, [c for c in corpus if c["op"] == "stack"], [c for c in corpus if c["op"] == "bip"])
     run_cases(ctx, "stations", gen_stations())
     run_cases(ctx, "nets", gen_nets())
     run_cases(ctx, "ipv4", gen_ipv4(ctx, rng))
@@ -861,6 +1352,10 @@ def run(ctx):
     pairs, pools = gen_pools(ctx, rng)
     run_cases(ctx, "pairs", pairs)
     triples(ctx, pools, rng)
+    run_reuse(ctx, gen_reuse(ctx, ctx.sub_rng("c18-reuse"), pools))
+    route_aware_reuse(ctx)
+    srng = ctx.sub_rng("c18-stack")
+    run_stack(ctx, gen_stack(ctx, srng), gen_bip(ctx, srng))
     run_cases(ctx, "malformed", gen_malformed(ctx, rng))
     specs = []
     step = 40000
@@ -899,6 +1394,18 @@ def replay(ctx, payload):
     case = rec.get("case")
     if not case:
         raise core.Infra("nothing to replay")
+    if case.get("op") == "reuse":
+        run_reuse(ctx, [case])
+        return
+    if case.get("op") == "stack":
+        run_stack(ctx, [case], [])
+        return
+    if case.get("op") == "bip":
+        run_stack(ctx, [], [case])
+        return
+    if case.get("op") == "route-reuse":
+        route_aware_reuse(ctx)
+        return
     if case.get("op") == "triple":
         a, b, c = build(case["a"]), build(case["b"]), build(case["c"])
         if (a == b) and (b == c) and not (a == c):
